@@ -85,6 +85,21 @@ func (x *Exec) VerifyFunc(fn *ssa.Function) (rep *FuncReport) {
 		args = append(args, v)
 		f.regs[p] = v
 	}
+	// a function literal under contract: its captured variables are cells with arbitrary contents.
+	// They are not reachable by unknown code (lexical scoping: only the enclosing function and its
+	// literals name them), so calls of unknown callees leave them alone.
+	for _, fv := range fn.FreeVars {
+		pt, ok := fv.Type().Underlying().(*types.Pointer)
+		if !ok {
+			unsupported("free variable %s captured by value", fv.Name())
+		}
+		x.cellN++
+		c := &Cell{ID: x.cellN, Name: fv.Name(), Type: pt.Elem()}
+		v := x.namedValue(fv.Name(), pt.Elem())
+		x.assumeParamWF(st, v, pt.Elem())
+		st.cells[c] = v
+		f.binds = append(f.binds, &Ptr{Cell: c, Type: pt.Elem()})
+	}
 	f.entry = st
 	for _, c := range sp.Of("requires") {
 		st.PC = x.B.And(st.PC, f.evalBool(c.Expr, st, st))
@@ -92,7 +107,7 @@ func (x *Exec) VerifyFunc(fn *ssa.Function) (rep *FuncReport) {
 	if o := x.oblige("reach", "requires is satisfiable", shortFile(sp.File), st, x.B.False()); o != nil {
 		o.Expect = "sat"
 	}
-	if len(sp.Of("on_exit"))+len(sp.Of("on_panic")) > 0 {
+	if len(sp.Of("on_exit"))+len(sp.Of("on_panic")) > 0 || sp.Flags["never_panics"] {
 		f.panicHook = f.raise
 	}
 	res := f.run(st.clone(), args)
